@@ -368,8 +368,51 @@ fn rf_case(pc: &PolyCase, max_area: Float, max_ar: Float, model_limit: usize, se
         }
     }
 }
+/// circular sectors with the centre O as a corner (a pie slice with 1..3 arc points between its ends), any start vertex and
+/// winding: when the outline starts on the arc, ear clipping cuts an obtuse "cap" triangle T of arc points whose circumcentre
+/// is the mesh vertex O.  The bounds are aimed so that T alone is both oversized and too thin while every other triangle is
+/// within both bounds: the circumcentre insertion is a no-op, only the bisection of the ratio test cures T (seeded change
+/// C18-m5: area test moved before the ratio test)
+fn sector_case(y: &mut Rng, size_cap: f64) -> Option<(PolyCase, Float, Float)> {
+    let rad = (*y.pick(&[0.5f64, 1.0, 1.5, 2.0])).min(size_cap);
+    // 70 %: the pie slice P0 P1 P2 O with a wide span s in [128, 165] degrees and P1 closer than 180 - s degrees to one end: then
+    // the cap P0 P1 P2 is larger AND thinner than the only other triangle P0 P2 O (area: sin(ts) + sin((1-t)s) > 2 sin s; ratio:
+    // 1 / (2 sin(min arc / 2)) > 1 / (2 cos(s / 2))), so bounds between the two exist
+    let pie = y.chance(0.7);
+    let m = if pie { 3 } else { 3 + y.below(3) as usize };
+    let span_deg = if pie { y.range(128.0, 165.0f64) } else { y.range(70.0, 170.0f64) };
+    let span = span_deg.to_radians();
+    let a0 = y.range(0.0, std::f64::consts::TAU);
+    let mut cuts: Vec<f64> = if pie { let mn = y.range(0.3, 0.9) * (180.0 - span_deg) / span_deg; vec![if y.chance(0.5) { mn } else { 1.0 - mn }] }
+                             else { (0..m - 2).map(|_| y.range(0.15, 0.85)).collect() };
+    cuts.sort_by(|a, b| a.partial_cmp(b).unwrap());
+    let mut fr_: Vec<f64> = vec![0.0]; fr_.extend(cuts); fr_.push(1.0);
+    let mut poly: Vec<P2> = fr_.iter().map(|t| { let a = a0 + t * span; (rad * a.cos(), rad * a.sin()) }).collect();
+    poly.push((0.0, 0.0));
+    if y.chance(0.3) { poly = reversed(&poly); }
+    poly = rotate_start(&poly, y.below(poly.len() as u64) as usize);
+    let fr = frame_for(y, 100.0);
+    let outer: Vec<Point3D> = poly.iter().map(|p| fr.at(p.0, p.1)).collect();
+    let note = format!("sector:{}:h0:plane{}", poly.len(), fr.kind);
+    let pc = PolyCase { outer, holes: vec![], note, bridge_ok: true, outer2: poly, holes2: vec![], fr };
+    let p = build_polygon(&pc.outer, &pc.holes).ok()?;
+    let t = match catch(AssertUnwindSafe(|| Triangulation3D::from_polygon(&p))) { Ok(Ok(t)) => t, _ => return None };
+    let tl = t.get_trilist();
+    let k = tl.iter().position(|tr| { let c = tr.circumcenter(); pc.outer.iter().any(|v| v.compare(c)) })?;
+    let (rt, at) = (tl[k].aspect_ratio() as f64, tl[k].area() as f64);
+    let ro = tl.iter().enumerate().filter(|(i, _)| *i != k).map(|(_, x)| x.aspect_ratio() as f64).fold(0.0f64, f64::max);
+    let ao = tl.iter().enumerate().filter(|(i, _)| *i != k).map(|(_, x)| x.area() as f64).fold(0.0f64, f64::max);
+    if !(rt.is_finite() && ro.is_finite() && rt >= 0.9 && rt < 9.0 && at > 2e-3) { return None; }
+    let (max_area, max_ar) = if ao < at * 0.97 && ro < rt * 0.97 {
+        (y.range((ao * 1.01).max(at * 0.5), at * 0.99), y.range((ro * 1.01).max(rt * 0.6).max(0.85), rt * 0.99))
+    } else {
+        (at * y.range(0.3, 0.9), y.range((rt * 0.7).max(0.9), rt * 0.97))
+    };
+    Some((pc, max_area as Float, max_ar as Float))
+}
 pub fn run_rf(seed: u64, n: usize, out: &str, salt: u64, extra: &[String]) {
     let mut r = Rng::new(seed ^ salt);
+    let mut y = Rng::new(seed ^ salt ^ 0x5EC7_0B);
     let mut sink = mesh_sink(out, 1);
     // extra: [model_limit, kmax, size_cap]
     let model_limit: usize = extra.get(0).and_then(|s| s.parse().ok()).unwrap_or(150);
@@ -392,6 +435,10 @@ pub fn run_rf(seed: u64, n: usize, out: &str, salt: u64, extra: &[String]) {
         }
     }
     while sink.len() < n {
+        // sector family, drawn from its own generator state (inserted between the cases of the old sequence, which is only cut at n)
+        if n >= 30 && y.chance(0.13) {
+            if let Some((pc, a, m)) = sector_case(&mut y, size_cap) { rf_case(&pc, a, m, model_limit, 60, &mut sink); continue; }
+        }
         let nm = if r.chance(0.2) { 24 } else { 9 };
         let pc = rand_polycase(&mut r, nm, 2, size_cap, 100.0);
         let area = { let a = area2(&pc.outer2).abs(); let h: f64 = pc.holes2.iter().map(|h| area2(h).abs()).sum(); a - h };
@@ -432,6 +479,14 @@ pub fn run_rf(seed: u64, n: usize, out: &str, salt: u64, extra: &[String]) {
                         if rt.is_finite() && rs.is_finite() && rs > rt * 1.1 && rt < 9.0 {
                             max_ar = r.range(rt * 1.02, (rs * 0.97).min(10.0).max(rt * 1.05)) as Float;
                             max_area = (tl[k].area() as f64 * r.range(0.3, 0.9)) as Float;
+                        }
+                        // the other combination (seeded change C18-m5: area test before the ratio test): T is oversized AND above
+                        // the ratio bound; its circumcentre insertion is a no-op, so only the bisection of the ratio arm can cure it.
+                        // Decided from a derived generator state: the cases that do not take this branch are unchanged
+                        let mut r2 = Rng(r.0 ^ 0xC18_0005);
+                        if rt.is_finite() && rt >= 1.0 && rt < 9.0 && r2.chance(0.4) {
+                            max_ar = r2.range((rt * 0.7).max(0.9), rt * 0.97) as Float;
+                            max_area = (tl[k].area() as f64 * r2.range(0.3, 0.9)) as Float;
                         }
                     }
                 }
